@@ -392,6 +392,49 @@ class Monitor(object):
         self.ctx['update'] += 1
         self.on_update(reg)
 
+    def nov_re1(self, re):
+        """Interior-subchannel Reynolds number as the Novendstern friction
+        correlation defines it: with Novendstern's own flow split
+        X1 = A_b / sum_j n_j A_j (De_j / De_1)^0.714, whatever split the
+        region uses."""
+        G = self.G
+        x1 = 1.0 / float(np.sum(G['s'] * (G['de'] / G['de'][0]) ** 0.714))
+        return re * x1 * G['de'][0] / G['De_b']
+
+    def pre_static(self, args, kwargs):
+        if self.ctx is not None:
+            self.ctx['reg'] = args[0]
+
+    def kink_band(self, width=0.05):
+        """After a StopIteration: does the equal-gradient split (own
+        constants, damped solve) put a subchannel within `width` of one of
+        its own regime boundaries - or can even the damped solve not settle
+        (solution on the kink)? None when it cannot be computed."""
+        try:
+            mix, ff, fs = self.ctx['triple']
+            reg = self.ctx.get('reg')
+            if fs not in CT or reg is None:
+                return None
+            G, cf, bnds = self.G, self.cf[fs], self.bnds[fs]
+            cip = reg.coolant_int_params
+            re = float(cip['Re'])
+            k = 0.0
+            if self.gm != 'none':
+                k = float(cip['grid_loss_coeff']) * len(GRID_FRAC)
+            L = float(reg.z[1] - reg.z[0])
+            xs, conv = ct.solve_split(fs, G, cf, bnds, re, np.ones(3), k, L)
+            if not conv:
+                return True
+            re_i = re * xs * G['de'] / G['De_b']
+            xl = ct.constant_split(G, cf, 'laminar')
+            xt = ct.constant_split(G, cf, 'turbulent')
+            r_l = re_i / (bnds[0] * xl * G['de'] / G['De_b'])
+            r_t = re_i / (bnds[1] * xt * G['de'] / G['De_b'])
+            return bool(np.any(np.abs(r_l - 1.0) <= width)
+                        or np.any(np.abs(r_t - 1.0) <= width))
+        except Exception:
+            return None
+
     def pre_approx(self, args, kwargs):
         if self.ctx is not None:
             self.ctx['approx'] += 1
@@ -458,7 +501,7 @@ class Monitor(object):
         # --- friction factor
         f_b = cip['ff']
         fok = bool(np.ndim(f_b) == 0 and np.isfinite(f_b) and f_b > 0.0)
-        re1 = re * x[0] * G['de'][0] / G['De_b'] if ok else float('nan')
+        re1 = self.nov_re1(re)
         self.check('FF_positive_finite', fok,
                   '' if fok else 'bundle friction factor not positive/finite: '
                   '%r' % (f_b,),
@@ -587,14 +630,34 @@ class Monitor(object):
             for lab, fam_c, k in list(cands):
                 cands.append((lab + ('friction_family_constants',), ff, k))
         if self.ctx['approx']:
-            # the transition path never carries a grid term and always
-            # reads the friction correlation's constants
+            # the closed-form fallback was seen to run; which constants it
+            # was fed is decided by reproducing the split, not by the
+            # configuration (the fallback has no grid term at all)
             lab = []
-            if self.gm == 'lc' and k_tot > 0.0:
+            if k_tot > 0.0:
                 lab.append('grid_term_ignored_by_split')
+            fams = [((), fs)]
             if self.hybrid():
-                lab.append('friction_family_constants')
-            return '+'.join(lab + ['approx_fallback_after_nonconvergence'])
+                fams.append((('friction_family_constants',), ff))
+            for extra, fam_c in fams:
+                # (right on a boundary the closed form is sensitive to the
+                # last bit of Re: try the neighbouring doubles as well)
+                res_ = [re]
+                for _ in range(2):
+                    res_ = [float(np.nextafter(res_[0], 0.0))] + res_ + \
+                        [float(np.nextafter(res_[-1], np.inf))]
+                for re_ in sorted(res_, key=lambda v: abs(v - re)):
+                    try:
+                        xa = ct.approx_split(G, self.cf[fam_c],
+                                             self.bnds[fam_c], re_)
+                    except Exception:
+                        xa = None
+                    if xa is not None and \
+                            float(np.max(np.abs(xa - x))) < 1e-8:
+                        return '+'.join(lab + list(extra) + [
+                            'approx_fallback_after_nonconvergence'])
+            return '+'.join(lab + ['approx_fallback_after_nonconvergence',
+                                   'unexplained'])
         for lab, fam_c, k in cands:          # simplest model first
             try:
                 g, f, _ = ct.gradients(fs, G, self.cf[fam_c],
@@ -648,6 +711,8 @@ def _record_exception(res, mon, e, tb, stage):
     site, lineno = _site(tb)
     key = dict(mon.base_key(mon.ctx['re']), exc=type(e).__name__, site=site,
                fs_ct=mon.ctx['triple'][2] in CT)
+    if isinstance(e, StopIteration):
+        key['kink_band'] = mon.kink_band()
     mon.check('E_evaluable', False,
               'unhandled %s in %s (line %d): %s' % (type(e).__name__, site,
                                                     lineno, str(e)[:120]),
@@ -689,7 +754,11 @@ def run_point_build(res, mon, hk_state, g, gm, G, triple, re, march=True):
                           '%r' % (pd_,),
                           {'mech': 'dp_value', 'ff': triple[1],
                            'ff_ok': bool(np.isfinite(
-                               reg.coolant_int_params['ff']))}, mon.data())
+                               reg.coolant_int_params['ff'])),
+                           'nov_re1_le_16_76': bool(
+                               triple[1] == 'NOV' and mon.nov_re1(float(
+                                   reg.coolant_int_params['Re'])) <= 16.76)},
+                          mon.data())
         res.check('E_evaluable', True, '')
         res.count('points_build')
         if mon.ctx['static'] == 0 or mon.ctx['update'] == 0:
@@ -767,7 +836,7 @@ def run_case(case):
 
     with Hooks() as hk:
         hk.wrap(rrmod.RoddedRegion, '_init_static_correlated_params',
-                post=mon.post_static)
+                pre=mon.pre_static, post=mon.post_static)
         hk.wrap(rrmod.RoddedRegion, '_update_coolant_int_params',
                 post=mon.post_update)
         hk.wrap(reactor_mod.Reactor, '_setup_asm_templates', post=cap)
@@ -888,13 +957,22 @@ def classify(v, case):
                 and site ==
                 'flowsplit_ctd.py:_calc_bundle_plus_grid_flow_split'):
             return 'F123'
-        if (exc == 'StopIteration' and k.get('grid') == 'corr'
-                and k.get('mismatch') is False
+        if (exc == 'StopIteration' and k.get('grid') in ('corr', 'loss_coeff')
+                and k.get('fs_ct') is True and k.get('kink_band') is True
                 and site == 'flowsplit_ctd.py:_iterate'):
+            # the grid path has no fallback: the non-converging successive
+            # approximation (a subchannel next to its own regime boundary)
+            # escapes as StopIteration
             return 'F127'
         return None
     if mon == 'FF_positive_finite':
         if (k.get('ff') == 'NOV' and k.get('value') == 'nan'
+                and k.get('nov_re1_le_16_76') is True):
+            return 'F124'
+        return None
+    if mon == 'DP_finite':
+        # a NaN friction factor (F124) makes the friction pressure drop NaN
+        if (k.get('ff') == 'NOV' and k.get('ff_ok') is False
                 and k.get('nov_re1_le_16_76') is True):
             return 'F124'
         return None
